@@ -16,6 +16,24 @@ CLAIMS = {
             NOTE_PY + "; validity of an item is relative to the opaque inner-trait validator (its own correctness is C01/C03); List/Dict/Set.validate wrappers and nested containers rely on the modularity argument of DESIGN 6 C04, not on a separate obligation", "6 C04"),
 }
 
+NOTE_C = "A-API (contracts of ~45 CPython C-API primitives), A-HAVOC (calls that run Python may change every dict/list/mutable field, except the definition fields of the traits taking part: A-CB), A-ALLOC (allocation never fails), A-INT (C ints as mathematical integers), IEEE-754 doubles in z3 FP; ctraits.c parsed by clang with -DNDEBUG as in the shipped build; see DESIGN.md sections 2.2 and 3"
+CLAIMS.update({
+    "C03": ("The compiled validators validate_trait_type/_instance/_self_type/_enum/_map/_float/_float_range/_integer and in_float_range are executed symbolically from the clang AST of ctraits.c and proved against spec functions written from the statement (acceptance set, exact result type, TraitError vs propagated conversion errors, IEEE semantics incl. NaN/+-0/inf for ranges); unbounded.",
+            NOTE_C + "; the Python-side validate methods and the compound/tuple validators are not yet under contract: 'decide exactly like the Python validators' is proved as 'both meet the same spec' only for the float range (BaseRange side replayed, not proved)", "6 C03"),
+    "C01": ("Storage contract of setattr_trait (assignment path, all 8 combinations of validator / post_setattr / listeners): the validator is called at most once with the assigned value before any store or callback, a rejection stores nothing and notifies nobody, success stores exactly the validated (or original, per flag) value under the name; plus the validator contracts of C03.",
+            NOTE_C + "; validate / post_setattr / default_value_for / call_notifiers are used through family contracts (return success or failure, run Python); Python-only trait types (String, PrefixList, Array...) not under contract", "6 C01"),
+    "C02": ("Per assignment: setattr_trait calls the notifiers at most once, only after the store, only when the value counts as a change under the C pre-filter (mode none or old is not new), with new = the stored value and old read before the store; getattr_trait notifies with old = Uninitialized; the Python filters _change_accepted / ctrait_prevent_event are proved against counts(mode, old, new) under a four-valued model of == / != (raises, result whose bool() raises, true, false) and never raise; the three container notify() methods call each notifier once in order.",
+            NOTE_C + "; call_notifiers itself and the notifier wrapper classes are not yet under contract", "6 C02"),
+    "C10": ("getattr_trait: the default is computed at most once per call, stored under the name before post_setattr/notifiers run, notifiers get old = Uninitialized (filtered by both Python filters, proved), a failing default stores nothing; reference-neutral.",
+            NOTE_C + "; default_value_for's per-kind freshness and instance isolation (get_trait copy-on-write) are not yet under contract", "6 C10"),
+    "C14": ("Trait definition objects: the function-table invariant TI (each handler field is an entry of the table it is pickled through) is the precondition of func_index/_trait_getstate and is re-established by _trait_set_property and trait_new; _trait_getstate records indices that map back to the same handlers; stand-alone containers: __deepcopy__/__getstate__/__setstate__ of TraitList/TraitSet/TraitDict.",
+            NOTE_C + "; HasTraits.__getstate__/__setstate__/clone_traits and _trait_setstate are not yet under contract", "6 C14"),
+    "C18": ("For the C functions under contract (9 validators, setattr_trait, getattr_trait, func_index, _trait_getstate, _trait_set_property, trait_new): every pointer dereference is on a non-NULL pointer of the right type, every table/tuple index is in range, and (ownership ghost map) every reference taken is released on every path except the one returned.",
+            NOTE_C + "; the remaining ~130 functions of ctraits.c are unverified; no allocation-failure paths; GC/dealloc re-entrancy (A-FINAL) not modelled", "6 C18"),
+    "C19": ("Conjunction of the exceptional postconditions of the functions under contract: every container mutator leaves contents and events untouched when a validator raises at any item (incl. TraitListObject length violations), setattr_trait stores/notifies nothing when the validator fails, getattr_trait stores nothing when the default fails, the notification filters never raise.",
+            NOTE_PY + " / " + NOTE_C + "; property getter/setter wrappers, adaptation factories and observer registration rollback not yet under contract", "6 C19"),
+})
+
 NOT_YET = "not claimed yet: the contracts for this property are still being built (plan in DESIGN.md section 6); no other technique is substituted"
 
 
@@ -26,7 +44,7 @@ def main():
         checks.append(dict(
             property_id=pid, quick_cmd="./check %s --tier quick" % pid, thorough_cmd="./check %s --tier thorough" % pid,
             evidence_file="/verif/evidence/%s.json" % pid, replay_cmd_template="./check %s --replay {path}" % pid,
-            engine="pyvc", level_claimed=dict(category="proof", text=text, design_ref=ref), level_note=note, technique=TECH))
+            engine="cvc+pyvc" if pid in ("C01", "C02", "C03", "C10", "C14", "C18", "C19") else "pyvc", level_claimed=dict(category="proof", text=text, design_ref=ref), level_note=note, technique=TECH))
     man = dict(
         version=1,
         setup_cmd="python3-vt -m compileall -q /verif/vc /verif/contracts /verif/spec /verif/replay",
@@ -35,10 +53,12 @@ def main():
                    baseline_off_cmd="cd /repo && /venv/bin/python -m pytest -ra -q -p no:cacheprovider --timeout=900 --continue-on-collection-errors",
                    source_commits=[], add_only=True),
         engines=[dict(name="pyvc", path="/verif/vc/pyvc", serves_properties=sorted(CLAIMS),
-                      kind_free_text="verification-condition generator over the Python AST of the real functions + z3/cvc5")],
+                      kind_free_text="verification-condition generator over the Python AST of the real functions + z3/cvc5"),
+                 dict(name="cvc", path="/verif/vc/cvc", serves_properties=["C01", "C02", "C03", "C10", "C14", "C18", "C19"],
+                      kind_free_text="verification-condition generator over the clang JSON AST of traits/ctraits.c + z3 (FP, bit-vectors, arrays)")],
         checks=checks,
         notes="Exit codes of ./check: 0 held, 1 VIOLATION, 2 UNDECIDED (never on the unchanged tree), 3 internal error. "
-              "fix: commits in /repo so far: 3524dc0 (dict_event_factory), ce06215 (TraitSet.__deepcopy__); see KNOWN_FINDINGS.jsonl.",
+              "fix: commits in /repo: see KNOWN_FINDINGS.jsonl (status fixed).",
         not_applicable=[dict(property_id=p["id"], reason=NOT_YET) for p in props if p["id"] not in CLAIMS])
     json.dump(man, open("/verif/MANIFEST.json", "w"), indent=1)
 
